@@ -175,6 +175,7 @@ SPEC = {
         "tame_class_is_part_of_class_with_paste",
         "object_like_refines_spec",
         "trailing_function_name_is_invoked", "paste_is_single_token", "paste_matches_lexer",
+        "paste_joins_source_spellings",
         "parse_yields_wellformed_macro", "directive_takes_effect_from_its_line",
         "api_defines_equal_file_defines_tokens", "include_of_empty_file",
         "include_is_paste", "pragma_once_once",
@@ -214,7 +215,14 @@ SPEC = {
                   "like C (invocation_may_continue_on_next_line: universally, parenAfter finds '(' iff the next token that is "
                   "not white space is '('; agrees_line_end_before_parenthesis: the former witnesses now lie in the class). ## : one paste step replaces l ws* ## ws* r by one token spelled l+r "
                   "(paste_is_single_token); which joined spellings are one token agrees with the lexer model of C10 "
-                  "(identifiers and decimal numbers universally, the 49 operator pairs exhaustively, keyword tables). Scope of definitions: the list "
+                  "(identifiers and decimal numbers universally, the 49 operator pairs exhaustively, keyword tables). ## JOINS SOURCE "
+                  "SPELLINGS: the model's integer token carries its source spelling (0x10, 020, 16u and 16 are different tokens, "
+                  "as the real token carries its span), value and kind of a spelling are what the lexer model of C10 reads from it; "
+                  "paste_joins_source_spellings: for ALL pairs of number spellings the paste succeeds with the token spelled a++b "
+                  "iff the lexer model reads a++b as one integer literal, is ConcatFailed iff the lexer model does not read one "
+                  "token, and identifier ## number is the identifier spelled a++b (0x1 ## 0 = 0x10 = 16, v ## 0x10 = v0x10, "
+                  "slot_ ## 007 = slot_007); that both operands go through unlex and nothing is rendered per token kind is pinned "
+                  "in the source (Gen concatArmSpelling / concatUsesSourceSpelling in source_shape). Scope of definitions: the list "
                   "never holds two entries of a name, lookup = latest #define not followed by #undef, a directive takes effect "
                   "from its line; API defines = #define lines before the first line (every entry file); #include = the file's "
                   "lines between two block boundaries (empty file: one line end; an invocation does not span the start or end of an "
@@ -247,7 +255,13 @@ SPEC = {
             "'worker' macros whose names are passed as arguments to 1-2 'combinator' macros that invoke them (F(X..), F(1) F(2) .., "
             "F X with a parenthesised list, F(F(X)), a relay H2 -> H1), replacement lists of parameters, literals and punctuation "
             "with and without an identifier of their own, combinators in the file or in the API list -- judged strictly: any "
-            "difference from the reference fails under a key of its own; a disagreement with the reference is attributed to known "
+            "difference from the reference fails under a key of its own; third family (a fifth of the programs): ## operands of "
+            "every token kind and SPELLING -- integer literals in hex / octal / with leading zeros / with suffixes u l ul U L, "
+            "float literals (1. 1e3 1.0f 1.0h 1.0L, signed exponents), keywords, 27 operators, string literals, identifiers ending "
+            "in digits or shaped like suffixes and exponents; operands out of arguments, out of the replacement list, both, "
+            "empty, chains X ## Y ## Z, nested CAT(CAT(a,b),c), passed through unpasted; results that are identifiers, numbers "
+            "of every kind, operators, and invalid pastes; the reference pastes spellings and its output is put into the "
+            "observation form (kind and value) by the real lexer; a disagreement with the reference is attributed to known "
             "deviation classes only if the reference with exactly their mimic switches reproduces the real output, the first "
             "unexplained programs are shrunk in the harness (parentheses kept balanced); non-trivial = a macro is defined and at "
             "least three tokens come out",
@@ -264,17 +278,24 @@ SPEC = {
         "Spec/CPreMacro.lean: our reading of C11 6.10.3 (Prosser's algorithm) and 6.10.3.5 (scope of definitions); "
         "Lemmas.MacroTame.Tame / Lemmas.MacroTameP.TameP / Model.MacroTame.tameRun, tameRunP: the definition of the class of "
         "the refinement theorems",
-        "Model/Lexer.lean (C10's lexer model) for paste_matches_lexer",
+        "Model/Lexer.lean (C10's lexer model) for paste_matches_lexer, and since the spelling round as a PART of the macro model: "
+        "pasteTokens decides number ## number by Model.Lexer.readToEnd on the joined spelling, the driver prints an integer "
+        "token as the kind and value the lexer model reads from its spelling (tied to lexer.rs by C10's correspondence run and "
+        "here by every generated paste of number spellings)",
         "harness reference preprocessor (Rust) = the oracle of the correspondence run, incl. its mimic switches (one per known "
         "deviation class: they only decide whether a failure is filed under a known finding, never whether it is a failure); "
-        "the lexer is used as given (C10)",
+        "the lexer is used as given (C10): the reference works on spellings, and (a) whether a joined spelling that is neither "
+        "identifier-shaped nor a canonical decimal is one token, (b) the observation form (kind, value) of a spelling in the "
+        "reference's output are asked of the real lexer (harness canon_single)",
         "the resource class expansion-explodes-without-persistent-paint (C12.limit requests of the corpus) is recognised by size "
         "(> 1000 x the reference's token count, or time/memory limit), not by reproducing the output",
     ],
     "assumptions": [
-        "tokens are identifiers, decimal integers without suffix, ( ) , ## and the operators + - * ; = { }; white space is one "
-        "blank or a line end; pastes that produce anything but an identifier, a decimal integer or one of ++ -- += -= *= == "
-        "are answered 'unsupported' by the model (counted)",
+        "model tokens are identifiers, integer literals in any spelling (decimal, hex, octal, leading zeros, suffixes), ( ) , ## "
+        "and the operators + - * ; = { }; white space is one blank or a line end; programs with float literals, keywords, string "
+        "literals or other operators, and pastes number ## identifier (1 ## u, 1 ## e3) or pastes that produce anything but an "
+        "identifier, an integer literal or one of ++ -- += -= *= == are answered 'unsupported' by the model (counted; the "
+        "oracle judges them all); `<` `>` (lexed by what follows) and `#` are not generated",
         "conditional directives and defined() are C11's; the include handler is deterministic and reports one content per "
         "real file name (FileLoader serves the content stored when a real name was first seen; a request that gives two "
         "contents to one real name is answered 'unsupported' by the model)",
